@@ -98,6 +98,13 @@ impl AttributeParser {
     }
 
     fn parse_group(&mut self, name: Ident, group: TokenStream) -> Nested {
+        // Consume everything up to (and including) the next separator
+        let unexpected = self.collect_tail(Empty);
+
+        if !unexpected.is_empty() {
+            return Nested::Unexpected(unexpected);
+        }
+
         Nested::Named(name, NestedValue::Group(group))
     }
 
